@@ -52,7 +52,7 @@ func sheetXMLWithToken(tok string) []byte {
 func init() {
 	props["C18"] = func(r *Run, rng *RNG) {
 		thorough := r.Tier == "thorough"
-		r.Rule = "generated XLSX / PPTX / EPUB packages whose declared order (workbook sheet list, presentation slide list, OPF spine) is a random permutation of both the part file-name order and the ZIP member order; part files with standard, renamed, nested, absolute and '../' targets; relationship lists shuffled; missing parts; unreferenced decoy parts; EPUB hrefs with percent-escapes, '+', blanks and non-ASCII; OPF in nested directories; every part carries a unique token so that the order and the page of each part is observable. path.Clean and href resolution on a fixed list of awkward paths. non-trivial = at least 3 declared parts"
+		r.Rule = "generated XLSX / PPTX / EPUB packages whose declared order (workbook sheet list, presentation slide list, OPF spine) is a random permutation of both the part file-name order and the ZIP member order; part files with standard, renamed, nested, absolute and '../' targets; relationship lists shuffled; missing parts; unreferenced decoy parts; worksheet targets outside xl/; spine items with linear=\"no\"; EPUB hrefs with percent-escapes, '+', blanks and non-ASCII; OPF in nested directories; every part carries a unique token so that the order and the page of each part is observable. path.Clean and href resolution on a fixed list of awkward paths. non-trivial = at least 3 declared parts"
 		n := 120
 		if thorough {
 			n = 4000
@@ -82,6 +82,10 @@ func init() {
 						target = strings.TrimPrefix(member, "xl/")
 					case 2:
 						member = fmt.Sprintf("xl/worksheets/sheet%d.xml", fileNo)
+						target = "/" + member
+					case 3:
+						// an absolute target outside xl/
+						member = fmt.Sprintf("data/tabs/t%d.xml", fileNo)
 						target = "/" + member
 					default:
 						member = fmt.Sprintf("xl/worksheets/sheet%d.xml", fileNo)
@@ -354,7 +358,18 @@ func init() {
 					for _, m := range manifest {
 						items = append(items, epubItem{id: m[0], href: m[1], mediaType: "application/xhtml+xml"})
 					}
-					all := mkEPUB(opf, items, spine, zms, rng.Chance(4, 5))
+					// some items are auxiliary (linear="no"): they keep their place in the declared order
+					spineW := make([]string, len(spine))
+					for si, id := range spine {
+						spineW[si] = id
+						switch rng.Intn(5) {
+						case 0:
+							spineW[si] = id + "|no"
+						case 1:
+							spineW[si] = id + "|yes"
+						}
+					}
+					all := mkEPUB(opf, items, spineW, zms, rng.Chance(4, 5))
 					all = shuffleMembers(rng, all, true)
 					var mo [][2]string
 					for _, m := range all {
